@@ -50,6 +50,18 @@ const KINDS: &[Kind] = &[
     Kind { id: "second-argument-mismatch-in-multi-line-call", top: None, stmt: Some("two_args(\n    \"ok\",\n    \"bad\",\n)"), lines: &[2] },
     Kind { id: "list-element-mismatch-on-later-line", top: Some("g{n} :: [\n    1,\n    \"a\",\n]"), stmt: Some("z{n} :: [\n    1,\n    \"a\",\n]"), lines: &[0, 2] },
     Kind { id: "unresolved-name-on-later-line-of-call", top: None, stmt: Some("print(\n    nope{n}\n)"), lines: &[1] },
+    // arguments of different syntactic kinds around function literals: the line is that of the offending argument
+    Kind { id: "mismatch-after-a-function-literal-argument", top: None, stmt: Some("with_fn(\n    fn q: int -> int do q end,\n    1,\n    2,\n)"), lines: &[2] },
+    Kind { id: "mismatch-in-last-argument-after-a-function-literal", top: None, stmt: Some("with_fn(\n    fn q: int -> int do q end,\n    \"ok\",\n    \"bad\",\n)"), lines: &[3] },
+    Kind { id: "mismatch-inside-a-function-literal-argument", top: None, stmt: Some("with_fn(\n    fn q: int -> int do\n        q + \"a\"\n    end,\n    \"ok\",\n    1,\n)"), lines: &[2] },
+    Kind { id: "function-literal-of-the-wrong-type-between-arguments", top: None, stmt: Some("mid_fn(\n    1,\n    fn q: str -> int do 1 end,\n    \"ok\",\n)"), lines: &[2] },
+    Kind { id: "mismatch-before-a-function-literal", top: None, stmt: Some("mid_fn(\n    \"bad\",\n    fn q: int -> int do q end,\n    \"ok\",\n)"), lines: &[1] },
+    Kind { id: "mismatch-after-a-function-literal-in-the-middle", top: None, stmt: Some("mid_fn(\n    1,\n    fn q: int -> int do q end,\n    2,\n)"), lines: &[3] },
+    Kind { id: "five-kinds-of-argument-mismatch-at-1", top: None, stmt: Some("many(\n    \"bad\",\n    [1, 2],\n    (1, \"t\"),\n    fn q: int -> int do q end,\n    \"ok\",\n)"), lines: &[1] },
+    Kind { id: "five-kinds-of-argument-mismatch-at-2", top: None, stmt: Some("many(\n    1,\n    [\"bad\"],\n    (1, \"t\"),\n    fn q: int -> int do q end,\n    \"ok\",\n)"), lines: &[2] },
+    Kind { id: "five-kinds-of-argument-mismatch-at-3", top: None, stmt: Some("many(\n    1,\n    [1, 2],\n    (1, 2),\n    fn q: int -> int do q end,\n    \"ok\",\n)"), lines: &[3] },
+    Kind { id: "five-kinds-of-argument-mismatch-at-4", top: None, stmt: Some("many(\n    1,\n    [1, 2],\n    (1, \"t\"),\n    fn q: int -> str do \"s\" end,\n    \"ok\",\n)"), lines: &[4] },
+    Kind { id: "five-kinds-of-argument-mismatch-at-5", top: None, stmt: Some("many(\n    1,\n    [1, 2],\n    (1, \"t\"),\n    fn q: int -> int do q end,\n    5,\n)"), lines: &[5] },
     Kind { id: "annotation-mismatch", top: Some("g{n}: int : \"a\""), stmt: Some("z{n}: int = \"a\""), lines: &[0] },
     Kind { id: "not-on-int", top: Some("g{n} :: not 1"), stmt: Some("z{n} :: not 1"), lines: &[0] },
     Kind { id: "break-outside-loop", top: None, stmt: Some("break"), lines: &[0] },
@@ -118,6 +130,15 @@ fn build(c: &Case) -> Option<Built> {
         lines.push("    print(s)".into());
         lines.push("end".into());
         lines.push("two_args :: fn s: str, i: int do".into());
+        lines.push("    print(s)".into());
+        lines.push("end".into());
+        lines.push("with_fn :: fn f: fn int -> int, s: str, i: int do".into());
+        lines.push("    print(s)".into());
+        lines.push("end".into());
+        lines.push("mid_fn :: fn i: int, f: fn int -> int, s: str do".into());
+        lines.push("    print(s)".into());
+        lines.push("end".into());
+        lines.push("many :: fn i: int, l: [int], t: (int, str), f: fn int -> int, s: str do".into());
         lines.push("    print(s)".into());
         lines.push("end".into());
         let mut plant = |lines: &mut Vec<String>, indent: &str, want: &mut Vec<usize>| {
